@@ -61,8 +61,8 @@ theorem decision_full {s : Source} (sp : SP) (c : Cache)
   cases hd with
   | keep1 _ _ _ => exact sendPSync_full hf
   | clear _ _ _ => exact sendPSync_full hf
-  | rdb4full _ _ _ _ _ => exact sendPSync_full hf
-  | rdb4 _ _ _ _ h => simp only at hf; rw [h] at hf; cases hf
+  | rdb4full _ _ _ _ _ _ => exact sendPSync_full hf
+  | rdb4 _ _ _ _ h _ => simp only at hf; rw [h] at hf; cases hf
   | fresh _ _ => exact sendPSync_full hf
 
 theorem run_full {w : World} {s : Source} {sp : SP} {c : Cache} {d : CData}
@@ -193,8 +193,8 @@ structure KeepSpec (w : World) (s : Source) (sp : SP) (c : Cache) (d : CData) (r
     (r.reader = .aof sp.offset ∧ r.delivery = .stream sp.offset r.data.aofByte ∧
         (sp.runId = s.id1 ∨ sp.runId = s.id2) ∧ sp.offset ≤ c.latest ∧
         (match c.aof with | some (l, _) => l ≤ sp.offset | none => c.latest ≤ sp.offset)) ∨
-    (∃ left size, c.rdb = some (left, size) ∧ r.reader = .rdb left size ∧
-        r.delivery = .snapshot d.rdbTok left size)
+    (∃ left size, c.rdb = some (left, size) ∧ (sp.isInitial = true ∨ sp.offset < left) ∧
+        r.reader = .rdb left size ∧ r.delivery = .snapshot d.rdbTok left size)
   after : ∀ k, cacheAfter r.mt k =
     { c with runId := s.id1,
              aof := match c.aof with
@@ -222,7 +222,7 @@ theorem openReader_keep_valid {c : Cache} (hc : CacheWF c) {off : Int} (hv : c.i
     {id : Id} (h1 : id ≠ []) (h2 : id ≠ qId) (hl : 0 ≤ c.latest) :
     (openReader { c with runId := id, aof := keptAof c } off = .aof off ∧ off ≤ c.latest ∧
         (match c.aof with | some (l, _) => l ≤ off | none => c.latest ≤ off)) ∨
-    (∃ left size, c.rdb = some (left, size) ∧
+    (∃ left size, c.rdb = some (left, size) ∧ off < left ∧
         openReader { c with runId := id, aof := keptAof c } off = .rdb left size) := by
   rw [inRange_iff hc] at hv
   have hin : Cache.inRange { c with runId := id, aof := keptAof c } off = true :=
@@ -239,11 +239,11 @@ theorem openReader_keep_valid {c : Cache} (hc : CacheWF c) {off : Int} (hv : c.i
   · simp only [or_false] at hv
     by_cases e : left ≤ off ∧ left ≥ off
     · left; simp [e] <;> omega
-    · right; refine ⟨left, size, rfl, ?_⟩
+    · right; refine ⟨left, size, rfl, by omega, ?_⟩
       simp [e] <;> omega
   · by_cases e : l ≤ off ∧ r ≥ off
     · left; simp [e] <;> omega
-    · right; refine ⟨left, size, rfl, ?_⟩
+    · right; refine ⟨left, size, rfl, by omega, ?_⟩
       simp [e] <;> omega
 
 theorem openReader_keep_rdb {c : Cache} (hc : CacheWF c) {left size : Int} (hr : c.rdb = some (left, size))
@@ -252,7 +252,7 @@ theorem openReader_keep_rdb {c : Cache} (hc : CacheWF c) {left size : Int} (hr :
   have hsz : 0 < size := by have := hc.rdb_ok; rw [hr] at this; exact this.2.1
   have hv : c.inRange (left - size) = true := by
     rw [inRange_iff hc]; left; simp only [rdbCovers, hr]; omega
-  rcases openReader_keep_valid hc hv h1 h2 hl with ⟨_, h3, h4⟩ | ⟨l', s', e, h⟩
+  rcases openReader_keep_valid hc hv h1 h2 hl with ⟨_, h3, h4⟩ | ⟨l', s', e, _, h⟩
   · exfalso
     have hcg := hc.contig
     rw [hr] at hcg
@@ -340,18 +340,18 @@ theorem run_spec {w : World} {s : Source} {sp : SP} {c : Cache} {d : CData}
         run_keep (w := w) (d := d) hs hdc ⟨hcont, (sendPSync_cont hs hcont).2.1, sendPSync_reqId _ _ _⟩ hcont hcid _ rfl
       right; left
       refine ⟨a1, a2, a3, a4, a5, a6, a7, a8, a9, a10, a11, a12, ?_, a15⟩
-      rcases openReader_keep_valid hc hv hs.id1_ne hs.id1_nq a7 with ⟨h1, h2, h3⟩ | ⟨left, size, e, h⟩
+      rcases openReader_keep_valid hc hv hs.id1_ne hs.id1_nq a7 with ⟨h1, h2, h3⟩ | ⟨left, size, e, hlt, h⟩
       · left
         rw [h1] at a13 a14
         exact ⟨a13, a14, hout, h2, h3⟩
       · right
         rw [h] at a13 a14
-        exact ⟨left, size, e, a13, a14⟩
+        exact ⟨left, size, e, Or.inr hlt, a13, a14⟩
     | clear br loc0 hout =>
       have hcont : (sendPSync s sp.runId sp.offset).full = false := by simpa using hf
       exact Or.inr (Or.inr (run_clear hs hc hdc hcont))
-    | rdb4full left size hr hcid hfull => exact absurd hfull hf
-    | rdb4 left size hr hcid hcont =>
+    | rdb4full left size hr hcid hfull _ => exact absurd hfull hf
+    | rdb4 left size hr hcid hcont hini =>
       have hl : c.range.2 = c.latest := range_snd hc (Or.inl (by simp [hr]))
       rw [hl] at hdc
       obtain ⟨a1, a2, a3, a4, a5, a6, a7, a8, a9, a10, a11, a12, a13, a14, a15⟩ :=
@@ -360,7 +360,7 @@ theorem run_spec {w : World} {s : Source} {sp : SP} {c : Cache} {d : CData}
       refine ⟨a1, a2, a3, a4, a5, a6, a7, a8, a9, a10, a11, a12, ?_, a15⟩
       right
       rw [openReader_keep_rdb hc hr hs.id1_ne hs.id1_nq a7] at a13 a14
-      exact ⟨left, size, hr, a13, a14⟩
+      exact ⟨left, size, hr, Or.inl hini, a13, a14⟩
     | fresh br loc0 =>
       exact absurd (qId_not_admitted hs (-1)) hf
 
@@ -392,7 +392,7 @@ theorem stream_facts {w : World} {s : Source} {sp : SP} {c : Cache} {d : CData}
   rcases run_spec (w := w) (sp := sp) (d := d) hs hc with hF | hK | hC
   · rw [hF.delivery] at h; cases h
   · have hcid := hK.cid
-    rcases hK.read with ⟨_, hdel, hout, hle, hlow⟩ | ⟨_, _, _, _, hdel⟩
+    rcases hK.read with ⟨_, hdel, hout, hle, hlow⟩ | ⟨_, _, _, _, _, hdel⟩
     · rw [hdel] at h
       cases h
       have hconv : ∀ n, 0 ≤ n → n < c.latest → w.hist c.runId n = w.hist s.id1 n := by
